@@ -304,6 +304,20 @@ def eval_docs(job):
                 out['corr_fail'].append({'key': 'find-mismatch' if isfind else 'parse-mismatch',
                                          'what': 'model and implementation differ (%s)' % (tol if isfind else 'tol %d' % tol),
                                          'input': src, 'skip': list(skip), 'tol': tol, 'impl': w[:300], 'model': g[:300]})
+    if job.get('cert'):
+        # certificates: is the document an instance of the proved grammar? (lib_gram, driver request `cert`)
+        import lib_gram
+        skips = [tuple(ast.skip) if ast is not None else tuple((extra or {}).get('skip', ())) for _, ast, extra in docs]
+        lines = common.model_batch([lib_gram.cert_req(src, 0, k) for (src, _, _), k in zip(docs, skips)])
+        for (src, _, _), k, line in zip(docs, skips, lines):
+            status, c = lib_gram.classify(line)
+            lib_gram.tally(st.c, status)
+            if status == 'contradiction' and len(out['corr_fail']) < 40:
+                out['corr_fail'].append(lib_gram.contradiction(src, k, line))
+            elif status.startswith('uncertified') and len(out.setdefault('uncertified', [])) < 5:
+                out['uncertified'].append({'input': src[:300], 'skip': list(k), 'certificate': line})
+            elif status.startswith('certified') and 'cert_sample' not in out and len(src) > 30:
+                out['cert_sample'] = {'certified_document': src[:200], 'skip': list(k), 'certificate': line}
     return out
 
 
@@ -318,6 +332,13 @@ def merge_jobs(results, r_corr, r_orc):
             r_corr.failures += o['corr_fail']
             if o['sample']:
                 r_corr.sample(o['sample'])
+            if o.get('cert_sample'):
+                if not any('certificate' in x for x in r_corr.samples):
+                    r_corr.samples[:] = [o['cert_sample']] + r_corr.samples[:5]
+            for u in o.get('uncertified', ()):
+                lst = r_corr.stats.setdefault('cert_uncertified_examples', [])
+                if len(lst) < 8:
+                    lst.append(u)
         if r_orc is not None:
             r_orc.evaluations += o['n_orc']
             if o['n_orc']:
